@@ -9,7 +9,9 @@ Definition of_kw (d : kw) : sx := L (map (fun e => L [I (fst e); of_optZ (snd e)
 Definition to_pairs (x : sx) : list (Z * Z) := map (fun e => (to_Z (nthx 0 e), to_Z (nthx 1 e))) (to_list x).
 
 Definition to_cfg (x : sx) : cfg :=
-  mkcfg (to_Zs (nthx 0 x)) (to_kw (nthx 1 x)) (to_kw (nthx 2 x)) (to_bool (nthx 3 x)) (to_optZ (nthx 4 x)).
+  mkcfg (to_Zs (nthx 0 x)) (to_kw (nthx 1 x)) (to_kw (nthx 2 x)) (to_bool (nthx 3 x)) (to_optZ (nthx 4 x))
+        (* optional 6th element [status_needs_worker; cb_keyword_kept]; absent = the code as it is now *)
+        (mkcode (to_bool (nthx 0 (nthx 5 x))) (to_bool (nthx 1 (nthx 5 x)))).
 Definition to_outcome (x : sx) : outcome :=
   match to_Z (nthx 0 x) with 0 => ORet | 1 => ORaise (to_Z (nthx 1 x)) (to_Z (nthx 2 x)) | _ => OEscape end.
 Definition to_prog (x : sx) : prog :=
@@ -64,21 +66,21 @@ Definition of_st (s : st) : sx :=
    that step was the task's return/raise; tag 4 = execute, followed by the worker's start step when accepted.
    Tag 6 = one fine-grained worker step. Each macro event reports the observations of the fine steps it expands to. *)
 Definition closing (p : pcs) : bool := match p with PRet | PExc _ _ | PSyncRet => true | _ => false end.
-Fixpoint wk_close (pr : prog) (n : nat) (s : st) : st * list obs :=
+Fixpoint wk_close (c : cfg) (pr : prog) (n : nat) (s : st) : st * list obs :=
   match n with
   | O => (s, [])
-  | S n' => if closing (pc s) then let (s1, o) := wk pr s in let (s2, os) := wk_close pr n' s1 in (s2, o :: os)
+  | S n' => if closing (pc s) then let (s1, o) := wk c pr s in let (s2, os) := wk_close c pr n' s1 in (s2, o :: os)
             else (s, [])
   end.
 Definition macro (c : cfg) (pr : prog) (s : st) (x : sx) : st * list obs :=
   match to_Z (nthx 0 x) with
-  | 0 => let (s1, o) := wk pr s in let (s2, os) := wk_close pr 3 s1 in (s2, o :: os)
+  | 0 => let (s1, o) := wk c pr s in let (s2, os) := wk_close c pr 3 s1 in (s2, o :: os)
   | 4 => let (s1, o) := step c pr s (to_ev x) in
          match o with
-         | OExec XAccepted => let (s2, o2) := wk pr s1 in (s2, [o; o2])
+         | OExec XAccepted => let (s2, o2) := wk c pr s1 in (s2, [o; o2])
          | _ => (s1, [o])
          end
-  | 6 => let (s1, o) := wk pr s in (s1, [o])
+  | 6 => let (s1, o) := wk c pr s in (s1, [o])
   | _ => let (s1, o) := step c pr s (to_ev x) in (s1, [o])
   end.
 Fixpoint run_report (c : cfg) (p : prog) (s : st) (l : list sx) : list sx :=
